@@ -61,21 +61,33 @@ theorem atx_open_iff (line : Bytes) (pos n : Nat) :
 theorem atx_open_noPanic (line : Bytes) (pos : Nat) : ∃ r, atxOpen line pos = .ok r :=
   atxOpen_noPanic line pos
 
-/-- `calcListOffset`, no content after the marker (end of line: `match[4] = −1`): the content offset is 1. -/
-theorem calcListOffset_noContent (source : Bytes) : calcListOffset source (-1) = .ok 1 :=
-  Proof.LineRec.calcListOffset_noContent source
+/-- `calcListOffset`, no content after the marker (end of line: `match[4] = −1`): the content offset is 1,
+    whatever the column `lo` at which the line view starts. -/
+theorem calcListOffset_noContent (source : Bytes) (lo : Nat) : calcListOffset source (-1) lo = .ok 1 :=
+  Proof.LineRec.calcListOffset_noContent source lo
 
-/-- `calcListOffset`, only white space after the marker (the item starts with a blank line): 1. -/
-theorem calcListOffset_blank (source : Bytes) (k : Nat) (hk : k ≤ source.length) (hb : isBlank (source.drop k) = true) :
-    calcListOffset source k = .ok 1 :=
-  Proof.LineRec.calcListOffset_blank source k hk hb
+/-- `calcListOffset`, only white space after the marker (the item starts with a blank line): 1, for every column. -/
+theorem calcListOffset_blank (source : Bytes) (k lo : Nat) (hk : k ≤ source.length) (hb : isBlank (source.drop k) = true) :
+    calcListOffset source k lo = .ok 1 :=
+  Proof.LineRec.calcListOffset_blank source k lo hk hb
 
 /-- `calcListOffset` (spec 5.2 rules 1 and 2): `n` spaces after the marker followed by a non-space byte give a
-    content offset of `n` when `1 ≤ n ≤ 4` and of 1 when `n ≥ 5` (the rest is then an indented code block). -/
-theorem calcListOffset_spaces (source : Bytes) (k n : Nat) (c : UInt8) (t : Bytes) (hc : isSpace c = false)
+    content offset of `n` when `1 ≤ n ≤ 4` and of 1 when `n ≥ 5` (the rest is then an indented code block).
+    With spaces the result does not depend on the column `lo` at which the line view starts. -/
+theorem calcListOffset_spaces (source : Bytes) (k lo n : Nat) (c : UInt8) (t : Bytes) (hc : isSpace c = false)
     (hs : source.drop k = List.replicate n 32 ++ c :: t) :
-    calcListOffset source k = .ok (if n > 4 then 1 else n) :=
-  Proof.LineRec.calcListOffset_spaces source k n c t hc hs
+    calcListOffset source k lo = .ok (if n > 4 then 1 else n) :=
+  Proof.LineRec.calcListOffset_spaces source k lo n c t hc hs
+
+/-- `calcListOffset_tab` (since /repo 3fb40b2). One tab after the marker, then content: the content offset is the
+    width of that tab measured from the column where the marker ends IN THE LINE — `lo` (column at which the line
+    view starts) plus `k` (bytes of indentation and marker, which are tab-free) — i.e. `4 − (lo + k) mod 4`, always
+    between 1 and 4, so the "more than 4 → 1" cap never applies. E.g. `-⇥foo` at the start of a line: 3; the same
+    item after a `> ` quote marker (`lo = 2`): 1. -/
+theorem calcListOffset_tab (source : Bytes) (k lo : Nat) (c : UInt8) (t : Bytes) (hc : isSpace c = false)
+    (hs : source.drop k = 9 :: c :: t) :
+    calcListOffset source k lo = .ok (4 - (lo + k) % 4) :=
+  Proof.LineRec.calcListOffset_tab source k lo c t hc hs
 
 /-- `IndentPosition(line, col, width)` fails (−1) exactly when the line is indented by fewer than `width`
     columns — for every mix of tabs and spaces and every start column. -/
@@ -204,8 +216,10 @@ example : fenceClose [96, 96, 96, 97, 10] 0 96 3 = .ok false := by decide -- som
 example : atxOpen [35, 35, 32, 97, 32, 35, 35, 10] 0 = .ok (some { level := 2, content := some (3, 5) }) := by decide  -- "a " : the space before the closing sequence stays, the inline phase trims it
 example : atxOpen [35, 97, 10] 0 = .ok none := by decide                  -- `#a` is not a heading
 example : atxOpen [35, 35, 35, 35, 35, 35, 35, 32, 97] 0 = .ok none := by decide   -- seven `#`
-example : calcListOffset [45, 32, 32, 32, 32, 97] 1 = .ok 4 := by decide
-example : calcListOffset [45, 32, 32, 32, 32, 32, 97] 1 = .ok 1 := by decide
+example : calcListOffset [45, 32, 32, 32, 32, 97] 1 0 = .ok 4 ∧ calcListOffset [45, 32, 32, 32, 32, 97] 1 3 = .ok 4 := by decide
+example : calcListOffset [45, 32, 32, 32, 32, 32, 97] 1 0 = .ok 1 := by decide
+-- `-⇥a`: the tab is 3 columns wide at the start of a line, 1 column wide after a `> ` marker (column 2)
+example : calcListOffset [45, 9, 97] 1 0 = .ok 3 ∧ calcListOffset [45, 9, 97] 1 2 = .ok 1 := by decide
 -- tab = spaces: `"\t"` and `"    "` reach column 4 from column 0; `" \t"` and `"  "` reach column 4 from column 2
 example : (indentWidth [9] 0).1 = (indentWidth [32, 32, 32, 32] 0).1 := by decide
 example : (indentWidth [32, 9] 2).1 = (indentWidth [32, 32] 2).1 := by decide
